@@ -342,7 +342,7 @@ def judge(c, o, prof):
             return None          # identifiers the peer's OPEN validation refuses (C07/C03 territory)
         encodable = sum(cap_wire_len(x) for x in m[4]) + (2 if m[4] else 0) <= 255 and all(cap_wire_len(x) <= 257 for x in m[4])
     elif t == 'notif':
-        encodable = 21 + len(notif_norm(m[1], m[2], m[3])[2]) <= sess.max
+        encodable = 21 + len(notif_norm(m[1], m[2], expand_bytes(m[3]))[2]) <= sess.max
     elif t in ('eor', 'refresh'):
         if t == 'eor' and (m[1] not in sess.common or m[1] not in KNOWN_FAMILIES):
             return None
@@ -379,7 +379,7 @@ def judge(c, o, prof):
     if t == 'refresh':
         return None if decoded == [[7, m[1]]] else '%s: ROUTE-REFRESH decoded as %s' % (prof, decoded)
     if t == 'notif':
-        return None if decoded == [[5] + notif_norm(m[1], m[2], m[3])] else '%s: NOTIFICATION decoded as %s' % (prof, str(decoded)[:200])
+        return None if decoded == [[5] + notif_norm(m[1], m[2], expand_bytes(m[3]))] else '%s: NOTIFICATION decoded as %s' % (prof, str(decoded)[:200])
     if t == 'eor':
         return None if decoded == [[4, m[1]]] else '%s: End-of-RIB for family %d decoded as %s' % (prof, m[1], str(decoded)[:200])
     if t == 'open':
